@@ -46,6 +46,10 @@ ASSUMPTIONS = [
     'every-local-listener-closed), the listener side (SSHForwardListener.close, SSHClientListener.close/_close, '
     'close_forward_listener, close_client_*_listener) and the listener-closing part of the client / server '
     '_cleanup overrides are proved here; tun/tap has no permission gate in the code (observation, no obligation)',
+    'C20: create_tcp_local_listener: sockets are abstract (socket(), bind() may raise OSError; OverflowError from '
+    'bind and a failing loop.create_server(sock=<bound socket>) are not modelled), sockaddr tuples are IPv4-shaped '
+    '(host, port), the ghost state lives on the conn argument; not replayed natively (real sockets) - the seeded '
+    'change has its own demo',
     'C20: this sidecar owns the FORWARDING gates (direct-tcpip, direct-streamlocal, tcpip-forward, '
     'streamlocal-forward, X11, agent); enforcement of the other stored restrictions (no-pty, command= / '
     'force-command, environment=) in channel.py (_process_pty_req_request, _start_session, '
@@ -644,7 +648,16 @@ FWD_FIELDS = {
     '_peer': 'opt[obj:Peer]', '_transport': 'opt[obj:Transport]', '_inpbuf': 'bytes', '_eof_received': 'bool',
     'ghost_out': 'bytes', 'ghost_eof_out': 'int',
 }
-FWD_CLASSES = {'SSHForwarder': FWD_FIELDS, 'SSHLocalForwarder': FWD_FIELDS, 'Peer': {}, 'Transport': {}, 'Conn': {}}
+# the peer is itself a forwarder: the one piece of its state the relay reads is whether ITS incoming direction has ended
+PEER_FIELDS = {'_eof_received': 'bool'}
+FWD_CLASSES = {'SSHForwarder': FWD_FIELDS, 'SSHLocalForwarder': FWD_FIELDS, 'Peer': PEER_FIELDS, 'Transport': {},
+               'Conn': {}}
+# a forwarder's own small accessors are executed from their real source when changed code calls them on self
+FWD_INLINE = {'self.was_eof_received': ('forward', 'SSHForwarder.was_eof_received'),
+              'self.write': ('forward', 'SSHForwarder.write'), 'self.write_eof': ('forward', 'SSHForwarder.write_eof'),
+              'self.pause_reading': ('forward', 'SSHForwarder.pause_reading'),
+              'self.resume_reading': ('forward', 'SSHForwarder.resume_reading'),
+              'self.set_peer': ('forward', 'SSHForwarder.set_peer')}
 EMPTY = z3.Empty(BytesS)
 
 
@@ -656,6 +669,15 @@ def has_peer(c, old=True):
 def has_transport(c, old=True):
     v = c.oldv('_transport') if old else c.newv('_transport')
     return z3.Not(c.is_none(v))
+
+
+def peer_eof_seen(c, old=True):
+    """_eof_received of the forwarder that was the peer on entry (only meaningful under has_peer)"""
+    v = c.oldv('_peer')
+    if not isinstance(v, VOpt) or not isinstance(v.val, VRef):
+        return z3.BoolVal(False)
+    st = c.old_state if old else c.new_state
+    return st.rec(v.val).fields['_eof_received'].z
 
 
 def ordered(c, old=True):
@@ -687,6 +709,16 @@ def peer_eof_stub(cx):
 peer_eof_stub.modifies = ('ghost_eof_out',)
 
 
+def peer_was_eof_stub(cx):
+    """peer.was_eof_received() by its contract (fwd_was_eof_received: reports-own-eof)"""
+    if not isinstance(cx.recv, VRef):
+        raise Unsupported('was_eof_received() on something that is not the peer object')
+    return [Out(ret=cx.field('_eof_received', cx.recv), event=('peer_was_eof', (cx.recv,)))]
+
+
+peer_was_eof_stub.modifies = ()
+
+
 def peer_close_stub(cx):
     # mutual recursion A.close -> B.close -> A.close is cut because the link is cleared first
     cx.require('peer-detached-before-it-is-closed(recursion bounded)', _is_none_z(cx.selff('_peer')))
@@ -716,7 +748,7 @@ def recv_event_stub(name, exc=None):
 
 FWD_STUBS = {
     'self._peer.write': peer_write_stub, 'self._peer.write_eof': peer_eof_stub,
-    'self._peer.was_eof_received': ret('bool', 'peer_saw_eof'),
+    'self._peer.was_eof_received': lambda cx: peer_was_eof_stub(cx),
     'self._peer.pause_reading': recv_event_stub('peer_pause'),
     'self._peer.resume_reading': recv_event_stub('peer_resume'),
     'peer.close': peer_close_stub,
@@ -748,7 +780,7 @@ def stream_conserved(c, received):
 
 fwd_data_received = Spec(
     PROP, 'forward', 'SSHForwarder.data_received', self_class='SSHForwarder',
-    params=dict(data='bytes', datatype='opt[int]'), classes=FWD_CLASSES, stubs=dict(FWD_STUBS),
+    params=dict(data='bytes', datatype='opt[int]'), classes=FWD_CLASSES, stubs=dict(FWD_STUBS), inline=dict(FWD_INLINE),
     requires=lambda c: ordered(c),
     ensures=[
         ('relayed-complete-and-in-order', lambda c: stream_conserved(c, c.arg('data'))),
@@ -763,15 +795,17 @@ fwd_data_received = Spec(
 
 fwd_eof_received = Spec(
     PROP, 'forward', 'SSHForwarder.eof_received', self_class='SSHForwarder',
-    classes=FWD_CLASSES, stubs=dict(FWD_STUBS),
+    classes=FWD_CLASSES, stubs=dict(FWD_STUBS), inline=dict(FWD_INLINE),
     # asyncio delivers eof_received() at most once per transport
     requires=lambda c: z3.And(ordered(c), z3.Not(c.old('_eof_received')), c.old('ghost_eof_out') == 0),
     ensures=[
         ('eof-recorded', lambda c: c.new('_eof_received')),
         ('eof-forwarded-exactly-once-when-connected', lambda c: c.new('ghost_eof_out') == z3.If(has_peer(c), 1, 0)),
-        ('half-close(keep own side open iff peer has not seen EOF)', lambda c: (
-            lambda w: c.truthy(c.result_v) == (z3.Not(w[0]['ret'].z) if w else z3.BoolVal(True)))(
-            c.calls('was_eof_received'))),
+        # half-close: after EOF in this direction the OTHER direction stays open until its own EOF - the return
+        # value tells asyncio / the channel to keep this end open exactly while the peer's incoming side has not ended
+        ('half-close(keep own side open iff peer has not seen EOF)', lambda c: c.truthy(c.result_v) == z3.Or(
+            z3.Not(has_peer(c)), z3.Not(peer_eof_seen(c)))),
+        ('peer-state-untouched', lambda c: z3.Implies(has_peer(c), peer_eof_seen(c, old=False) == peer_eof_seen(c))),
         ('data-untouched', lambda c: stream_conserved(c, EMPTY)),
         ('class-inv(ordered)', lambda c: ordered(c, old=False)),
     ], returns='bool')
@@ -795,7 +829,7 @@ fwd_close = Spec(
 
 fwd_connection_lost = Spec(
     PROP, 'forward', 'SSHForwarder.connection_lost', self_class='SSHForwarder', params=dict(exc='opt[opaque:Exc]'),
-    classes=FWD_CLASSES, stubs=dict(FWD_STUBS),
+    classes=FWD_CLASSES, stubs=dict(FWD_STUBS), inline=dict(FWD_INLINE),
     ensures=[('losing-one-end-closes-the-pair', lambda c: z3.BoolVal(n(c, 'close') == 1))])
 
 
@@ -811,12 +845,12 @@ def forwarded_once(ev_name, field, other=()):
 
 fwd_pause_writing = Spec(
     PROP, 'forward', 'SSHForwarder.pause_writing', self_class='SSHForwarder', classes=FWD_CLASSES,
-    stubs=dict(FWD_STUBS),
+    stubs=dict(FWD_STUBS), inline=dict(FWD_INLINE),
     ensures=[('back-pressure-forwarded-to-peer', forwarded_once('peer_pause', '_peer', ('peer_resume',)))])
 
 fwd_resume_writing = Spec(
     PROP, 'forward', 'SSHForwarder.resume_writing', self_class='SSHForwarder', classes=FWD_CLASSES,
-    stubs=dict(FWD_STUBS),
+    stubs=dict(FWD_STUBS), inline=dict(FWD_INLINE),
     ensures=[('back-pressure-release-forwarded-to-peer', forwarded_once('peer_resume', '_peer', ('peer_pause',)))])
 
 
@@ -829,27 +863,27 @@ def t_write_post(c):
 
 fwd_write = Spec(
     PROP, 'forward', 'SSHForwarder.write', self_class='SSHForwarder', params=dict(data='bytes'),
-    classes=FWD_CLASSES, stubs=dict(FWD_STUBS),
+    classes=FWD_CLASSES, stubs=dict(FWD_STUBS), inline=dict(FWD_INLINE),
     ensures=[('exactly-these-bytes-once-to-own-transport', t_write_post)])
 
 fwd_write_eof = Spec(
     PROP, 'forward', 'SSHForwarder.write_eof', self_class='SSHForwarder', classes=FWD_CLASSES,
-    stubs=dict(FWD_STUBS),
+    stubs=dict(FWD_STUBS), inline=dict(FWD_INLINE),
     ensures=[('eof-once-to-own-transport', forwarded_once('t_eof', '_transport', ('t_close', 't_write')))])
 
 fwd_was_eof_received = Spec(
     PROP, 'forward', 'SSHForwarder.was_eof_received', self_class='SSHForwarder', classes=FWD_CLASSES,
-    stubs=dict(FWD_STUBS), ensures=[('reports-own-eof', lambda c: c.truthy(c.result_v) == c.old('_eof_received'))],
+    stubs=dict(FWD_STUBS), inline=dict(FWD_INLINE), ensures=[('reports-own-eof', lambda c: c.truthy(c.result_v) == c.old('_eof_received'))],
     returns='bool')
 
 fwd_pause_reading = Spec(
     PROP, 'forward', 'SSHForwarder.pause_reading', self_class='SSHForwarder', classes=FWD_CLASSES,
-    stubs=dict(FWD_STUBS), requires=lambda c: has_transport(c),
+    stubs=dict(FWD_STUBS), inline=dict(FWD_INLINE), requires=lambda c: has_transport(c),
     ensures=[('pauses-own-transport', forwarded_once('t_pause', '_transport', ('t_resume',)))])
 
 fwd_resume_reading = Spec(
     PROP, 'forward', 'SSHForwarder.resume_reading', self_class='SSHForwarder', classes=FWD_CLASSES,
-    stubs=dict(FWD_STUBS), requires=lambda c: has_transport(c),
+    stubs=dict(FWD_STUBS), inline=dict(FWD_INLINE), requires=lambda c: has_transport(c),
     ensures=[('resumes-own-transport', forwarded_once('t_resume', '_transport', ('t_pause',)))])
 
 
@@ -1842,3 +1876,137 @@ fwd_set_peer = Spec(
 
 for _sp in (fwd_init, fwd_set_peer):
     _sp.ensures = [(l, _safe(f)) for l, f in _sp.ensures]
+
+
+# =====================================================================================================
+#  8. creating a TCP listener: "a failed forwarding request leaves nothing listening"
+# =====================================================================================================
+# listener.create_tcp_local_listener opens one socket + asyncio server per resolved address.  Ghost state (kept on the
+# `conn` argument, the only object the function is handed): ghost_created = servers made by this call, in order;
+# ghost_closed = servers closed, in order; ghost_socks = sockets opened and neither closed nor handed to a server.
+import socket as _socket       # noqa: E402   (constants only: same interpreter family and OS as the replay python)
+
+ENTRY = 'tuple[int,int,int,str,tuple[str,int]]'       # (family, type, proto, canonname, sockaddr); IPv4-shaped sockaddr
+TL_CLASSES = {'TLConn': {'ghost_created': SRV_SEQ, 'ghost_closed': SRV_SEQ, 'ghost_socks': 'int'},
+              'Loop': {}, 'Sock': {}, 'FwdListener': {}}
+SOCK_CONSTS = {'socket.' + k: VInt(int(getattr(_socket, k))) for k in
+               ('AF_UNSPEC', 'SOCK_STREAM', 'AI_PASSIVE', 'SOL_SOCKET', 'SO_REUSEADDR', 'AF_INET6', 'IPPROTO_IPV6',
+                'IPV6_V6ONLY')}
+
+
+def _ghost_home(ex, st):
+    """plain function: the ghost fields live on the `conn` argument (contract clauses read them through c.old/c.new)"""
+    ex.self_ref = st.env['conn']
+
+
+def tl_bump(cx, d):
+    return (cx.ex.self_ref, 'ghost_socks', VInt(cx.selff('ghost_socks').z + d))
+
+
+def empty_set_stub(cx):
+    if cx.args:
+        raise Unsupported('set(iterable) in create_tcp_local_listener')
+    m = VMap(z3.K(sort_of(ENTRY), z3.BoolVal(False)), z3.K(sort_of(ENTRY), z3.BoolVal(True)), ENTRY, 'bool')
+    m.is_set = True
+    return [Out(ret=cx.st.alloc(m))]
+
+
+empty_set_stub.modifies = ()
+
+
+def new_socket_stub(cx):
+    return [Out(ret=cx.fresh('obj:Sock', 'sock'), osets=[tl_bump(cx, 1)], event=('socket', ())),
+            Out(exc=VExc('OSError'))]
+
+
+new_socket_stub.modifies = ('ghost_socks',)
+
+
+def sock_close_stub(cx):
+    return [Out(osets=[tl_bump(cx, -1)], event=('sock_close', (cx.recv,)))]
+
+
+sock_close_stub.modifies = ('ghost_socks',)
+
+
+def create_server_stub(cx):
+    """await loop.create_server(factory, sock=sock): the server now owns the (bound) socket and listens"""
+    srv = cx.fresh('opaque:Server', 'server')
+    g = cx.selff('ghost_created')
+    if 'sock' not in cx.kwargs:
+        raise Unsupported('create_server without sock=')
+    return [Out(ret=srv, osets=[tl_bump(cx, -1), (cx.ex.self_ref, 'ghost_created',
+                                                  VSeq(z3.Concat(g.z, z3.Unit(srv.z)), g.elem))],
+                event=('create_server', (srv,)))]
+
+
+create_server_stub.modifies = ('ghost_socks', 'ghost_created')
+
+
+def tl_listener_stub(cx):
+    return [Out(ret=cx.fresh('obj:FwdListener', 'listener'), event=('listener', tuple(cx.args)))]
+
+
+tl_listener_stub.modifies = ()
+
+
+def local_seq(c, name):
+    v = c.ex.deref(c.new_state, c.localv(name))
+    if isinstance(v, VList):
+        return to_z3(v, SRV_SEQ)
+    return v.z if isinstance(v, VSeq) else None
+
+
+def tl_outer_inv(c):
+    sv = local_seq(c, 'servers')
+    if sv is None:
+        return z3.BoolVal(False)
+    return z3.And(sv == c.new('ghost_created'), c.new('ghost_closed') == z3.Empty(sort_of(SRV_SEQ)),
+                  c.new('ghost_socks') == 0)
+
+
+def tl_failure_post(c):
+    """the request fails: every server this call started is closed again and no socket is left open"""
+    return z3.And(c.new('ghost_closed') == c.new('ghost_created'), c.new('ghost_socks') == 0,
+                  z3.BoolVal(n(c, 'listener') == 0))
+
+
+def tl_success_post(c):
+    ev = c.events('listener')
+    if len(ev) != 1 or len(ev[0][1]) < 3:
+        return z3.BoolVal(False)
+    a = ev[0][1]
+    sv = c.ex.deref(c.new_state, a[1])
+    svz = to_z3(sv, SRV_SEQ) if isinstance(sv, VList) else (sv.z if isinstance(sv, VSeq) else None)
+    if svz is None:
+        return z3.BoolVal(False)
+    return z3.And(svz == c.new('ghost_created'),                  # the listener owns exactly the servers started
+                  c.new('ghost_closed') == z3.Empty(sort_of(SRV_SEQ)), c.new('ghost_socks') == 0,
+                  z3.BoolVal(isinstance(a[0], VRef) and a[0].addr == c.self_ref.addr))
+
+
+create_tcp_local_listener = Spec(
+    PROP, 'listener', 'create_tcp_local_listener',
+    params=dict(conn='obj:TLConn', loop='obj:Loop', protocol_factory='opaque:Factory', listen_host='str',
+                listen_port='int'),
+    classes=TL_CLASSES, globals=dict(SOCK_CONSTS), setup=_ghost_home,
+    local_types={'servers': SRV_SEQ},
+    stubs={'loop.getaddrinfo': may_raise(ret('seq[' + ENTRY + ']', 'addrinfo'), 'OSError'),
+           'set': empty_set_stub, 'socket.socket': new_socket_stub,
+           'sock.setsockopt': noop(), 'sock.bind': may_raise(noop('bind'), 'OSError'),
+           'sock.close': sock_close_stub, 'sock.getsockname': ret('tuple[str,int]', 'sockname'),
+           'loop.create_server': create_server_stub, 'server.close': server_close_stub,
+           'conn.logger.debug1': noop(), 'SSHForwardListener': tl_listener_stub},
+    loops={1: LoopSpec(header='for addrinfo_entry in addrinfo', modifies=['ghost_created', 'ghost_socks'],
+                       invariant=tl_outer_inv),
+           2: LoopSpec(header='for server in servers', modifies=['ghost_closed'],
+                       invariant=lambda c: z3.And(
+                           c.new('ghost_closed') == z3.Concat(c.at_entry('ghost_closed'),
+                                                              z3.Extract(c.extra['iter'].z, 0, c.extra['i'])),
+                           c.new('ghost_created') == c.at_entry('ghost_created'),
+                           c.new('ghost_socks') == c.at_entry('ghost_socks')))},
+    requires=lambda c: z3.And(z3.Length(c.old('ghost_created')) == 0, z3.Length(c.old('ghost_closed')) == 0,
+                              c.old('ghost_socks') == 0, c.arg('listen_port') >= 0, c.arg('listen_port') < 65536),
+    ensures=[('listener-owns-exactly-the-servers-started', _safe(tl_success_post))],
+    raises={'OSError': _safe(tl_failure_post)})
+create_tcp_local_listener.no_replay = True      # real sockets: not replayed natively
